@@ -21,22 +21,16 @@ struct Remap {
 }
 impl Remap {
     fn id(&self, id: Id) -> Id {
-        if id == (0, 0) {
-            return id;
-        }
         (*self.clients.get(&id.0).unwrap_or(&999), id.1)
     }
 }
 
 fn jid(v: &Value) -> Option<Id> {
     let a = v.as_array()?;
-    let c = a[0].as_u64()?;
-    let k = a[1].as_u64()? as u32;
-    if c == 0 && k == 0 {
-        None
-    } else {
-        Some((c, k))
+    if a.len() < 2 {
+        return None;
     }
+    Some((a[0].as_u64()?, a[1].as_u64()? as u32))
 }
 
 fn branch_info(v: &Value, rm: &Remap) -> yrs::verif::BranchInfo {
@@ -222,7 +216,11 @@ fn main() {
                 continue 'tests;
             }
         }
-        clients.remove(&0);
+        let max_units: u64 = lines.iter().map(|l| l["blocks"].as_array().map(|a| a.iter().map(|b| b["n"].as_u64().unwrap_or(0)).sum::<u64>()).unwrap_or(0)).max().unwrap_or(0);
+        if max_units > 160 {
+            skipped.insert(test.clone(), "document too large for quick trace validation".into());
+            continue;
+        }
         if clients.len() > 40 || max_clock > 100_000 || docs.len() > 12 {
             skipped.insert(test.clone(), "too many clients / documents or clocks too large".into());
             continue;
@@ -239,6 +237,25 @@ fn main() {
         }
         if dup {
             skipped.insert(test.clone(), "two documents share a client id".into());
+            continue;
+        }
+        // a document whose store shrinks between two commits is really two documents sharing a guid
+        let mut last_units: HashMap<String, u64> = HashMap::new();
+        let mut shrinks = false;
+        for l in lines {
+            if l["h"] == "commit" {
+                let d = l["doc"].as_str().unwrap_or("").to_string();
+                let n: u64 = l["blocks"].as_array().map(|a| a.iter().map(|b| b["n"].as_u64().unwrap_or(0)).sum()).unwrap_or(0);
+                if let Some(p) = last_units.get(&d) {
+                    if n < *p {
+                        shrinks = true;
+                    }
+                }
+                last_units.insert(d, n);
+            }
+        }
+        if shrinks {
+            skipped.insert(test.clone(), "two documents share a guid".into());
             continue;
         }
         let rm = Remap { clients: clients.iter().enumerate().map(|(i, c)| (*c, i as u64 + 1)).collect() };
@@ -368,17 +385,20 @@ fn main() {
             let (emit_ins, emit_del, ok1) = if emit_bytes.is_empty() { (vec![], vec![], true) } else { units_json(&emit_bytes, &rm, &mut known) };
             let (mut pins, mut pdel) = (Vec::new(), Vec::new());
             let mut ok2 = true;
-            if inc.is_empty() {
-                pins = emit_ins.clone();
-                pdel = emit_del.clone();
-            } else {
-                for b in &inc {
-                    let (a, c, ok) = units_json(b, &rm, &mut known);
-                    ok2 &= ok;
-                    pins.extend(a);
-                    pdel.extend(c);
+            // what the transaction applied (possibly several updates, possibly mixed with local edits in the same
+            // transaction) plus everything it added itself
+            for b in &inc {
+                let (a, c, ok) = units_json(b, &rm, &mut known);
+                ok2 &= ok;
+                pins.extend(a);
+                pdel.extend(c);
+            }
+            for u in &emit_ins {
+                if !pins.iter().any(|x| x["id"] == u["id"]) {
+                    pins.push(u.clone());
                 }
             }
+            pdel.extend(emit_del.iter().cloned());
             if !(ok1 && ok2) {
                 usable = false;
             }
